@@ -69,8 +69,17 @@ MM_DESTS = {
     "other-from": ("xd.py", "from xd import B", "B()"),
     "other-import": ("xd.py", "import xd", "xd.B()"),
     "pkg-from": ("xpk/xm.py", "from xpk.xm import B", "B()"),
+    # destination classes whose body text starts with the letters "pass" / is a lone `pass`
+    "other-from-passprefix": ("xd.py", "from xd import B", "B()", "passprefix"),
+    "other-from-passonly": ("xd.py", "from xd import B", "B()", "passonly"),
+    "same-before-passcomment": (None, None, "B()", "passcomment"),
 }
-MM_B = "class B:\n    val = 'B.val'\n\n    def other(self):\n        return 'B.other'\n"
+MM_BS = {
+    "passprefix": "class B:\n    passage = 'B.val'\n    val = passage\n\n    def other(self):\n        return 'B.other'\n",
+    "passonly": "class BB:\n    val = 'B.val'\n\n    def other(self):\n        return 'B.other'\n\n\nclass B(BB):\n    pass\n",
+    "passcomment": "class BB:\n    val = 'B.val'\n\n    def other(self):\n        return 'B.other'\n\n\nclass B(BB):\n    pass  # nothing yet\n",
+}
+MM_B0 = "class B:\n    val = 'B.val'\n\n    def other(self):\n        return 'B.other'\n"
 # (id, signature after self, body lines, call argument lists)
 MM_METHODS = [
     ("noargs", "", ["return 'k'"], [""]),
@@ -107,7 +116,8 @@ MM_NAMES = ["mth", "moved", "other"]
 
 
 def mm_files(dest, meth, in_client):
-    dpath, imp, ctor = MM_DESTS[dest]
+    dpath, imp, ctor = MM_DESTS[dest][:3]
+    MM_B = MM_BS[MM_DESTS[dest][3]] if len(MM_DESTS[dest]) > 3 else MM_B0
     mid, sig, body, calls = meth
     files = {"xlib.py": "LV = 'xlib.LV'\nLV2 = 'xlib.LV2'\n", "xpk/__init__.py": "", "xpk/xm.py": "MV = 'xpk.xm.MV'\n"}
     src = "import xlib\nfrom xlib import LV2\n"
